@@ -2,6 +2,7 @@
 //! 
 //! Provides Redis-compatible list operations including push, pop, range, and more.
 
+use crate::storage::commands::RedisInt;
 use crate::error::{FerrousError, Result, StorageError};
 use crate::protocol::RespFrame;
 use crate::storage::StorageEngine;
@@ -162,7 +163,7 @@ pub fn handle_lrange(storage: &Arc<StorageEngine>, db: usize, parts: &[RespFrame
     // Extract start index
     let start = match &parts[2] {
         RespFrame::BulkString(Some(bytes)) => {
-            match String::from_utf8_lossy(bytes).parse::<isize>() {
+            match String::from_utf8_lossy(bytes).parse_redis::<isize>() {
                 Ok(n) => n,
                 Err(_) => return Ok(RespFrame::error("ERR value is not an integer or out of range")),
             }
@@ -173,7 +174,7 @@ pub fn handle_lrange(storage: &Arc<StorageEngine>, db: usize, parts: &[RespFrame
     // Extract stop index
     let stop = match &parts[3] {
         RespFrame::BulkString(Some(bytes)) => {
-            match String::from_utf8_lossy(bytes).parse::<isize>() {
+            match String::from_utf8_lossy(bytes).parse_redis::<isize>() {
                 Ok(n) => n,
                 Err(_) => return Ok(RespFrame::error("ERR value is not an integer or out of range")),
             }
@@ -213,7 +214,7 @@ pub fn handle_lindex(storage: &Arc<StorageEngine>, db: usize, parts: &[RespFrame
     // Extract index
     let index = match &parts[2] {
         RespFrame::BulkString(Some(bytes)) => {
-            match String::from_utf8_lossy(bytes).parse::<isize>() {
+            match String::from_utf8_lossy(bytes).parse_redis::<isize>() {
                 Ok(n) => n,
                 Err(_) => return Ok(RespFrame::error("ERR value is not an integer or out of range")),
             }
@@ -249,7 +250,7 @@ pub fn handle_lset(storage: &Arc<StorageEngine>, db: usize, parts: &[RespFrame])
     // Extract index
     let index = match &parts[2] {
         RespFrame::BulkString(Some(bytes)) => {
-            match String::from_utf8_lossy(bytes).parse::<isize>() {
+            match String::from_utf8_lossy(bytes).parse_redis::<isize>() {
                 Ok(n) => n,
                 Err(_) => return Ok(RespFrame::error("ERR value is not an integer or out of range")),
             }
@@ -290,7 +291,7 @@ pub fn handle_ltrim(storage: &Arc<StorageEngine>, db: usize, parts: &[RespFrame]
     // Extract start index
     let start = match &parts[2] {
         RespFrame::BulkString(Some(bytes)) => {
-            match String::from_utf8_lossy(bytes).parse::<isize>() {
+            match String::from_utf8_lossy(bytes).parse_redis::<isize>() {
                 Ok(n) => n,
                 Err(_) => return Ok(RespFrame::error("ERR value is not an integer or out of range")),
             }
@@ -301,7 +302,7 @@ pub fn handle_ltrim(storage: &Arc<StorageEngine>, db: usize, parts: &[RespFrame]
     // Extract stop index
     let stop = match &parts[3] {
         RespFrame::BulkString(Some(bytes)) => {
-            match String::from_utf8_lossy(bytes).parse::<isize>() {
+            match String::from_utf8_lossy(bytes).parse_redis::<isize>() {
                 Ok(n) => n,
                 Err(_) => return Ok(RespFrame::error("ERR value is not an integer or out of range")),
             }
@@ -336,7 +337,7 @@ pub fn handle_lrem(storage: &Arc<StorageEngine>, db: usize, parts: &[RespFrame])
     // Extract count
     let count = match &parts[2] {
         RespFrame::BulkString(Some(bytes)) => {
-            match String::from_utf8_lossy(bytes).parse::<isize>() {
+            match String::from_utf8_lossy(bytes).parse_redis::<isize>() {
                 Ok(n) => n,
                 Err(_) => return Ok(RespFrame::error("ERR value is not an integer or out of range")),
             }
